@@ -13,6 +13,7 @@ import NeoModel.Proofs.MempoolFull
 import NeoModel.Proofs.MempoolLin
 import NeoModel.Proofs.MempoolOrder
 import NeoModel.Proofs.MempoolAsync
+import NeoModel.Proofs.MempoolAdmit
 namespace NeoModel.Mempool.C08
 open NeoModel.Mempool
 
@@ -244,7 +245,8 @@ theorem source_tables_pinned :
     Generated.MempoolAdd.checkPolicySteps = Expected.checkPolicySteps ∧
     Generated.MempoolAdd.compareSteps = Expected.compareSteps ∧
     Generated.MempoolAdd.getPayerSteps = Expected.getPayerSteps ∧
-    Generated.MempoolAdd.tryGetDataSteps = Expected.tryGetDataSteps := tables_pinned
+    Generated.MempoolAdd.tryGetDataSteps = Expected.tryGetDataSteps ∧
+    Generated.MempoolAdd.conflictsAttrSteps = Expected.conflictsAttrSteps := tables_pinned
 
 /-- The error the model's `Add` returns is the first failing check in the order of the error returns of the
 SOURCE (the regenerated `errOrder`): ErrDup, ErrConflictsAttribute (no common signer), ErrConflictsAttribute
@@ -336,6 +338,107 @@ theorem async_events {U : Tx → Prop} (hw : WF U) (cap : Nat) (progs : List (Li
   rw [this]
   unfold content
   cases cf.pool.vmap id <;> rfl
+
+/-! ## 14. The policy without any hypothesis on the reported values -/
+
+theorem policy_raise_foldl {U : Tx → Prop} (hw : WF U) (tid v0 : Nat) : ∀ (ops : List Op) (mp : Pool), Inv U mp →
+    OpsIn U ops → NoAddOf tid ops →
+    (mp.feePerByte = v0 ∨ ∀ x ∈ mp.txs, x.id = tid → mp.feePerByte ≤ x.feePerByte) →
+    ((ops.foldl applyOp mp).feePerByte = v0 ∨
+      ∀ x ∈ (ops.foldl applyOp mp).txs, x.id = tid → (ops.foldl applyOp mp).feePerByte ≤ x.feePerByte) := by
+  intro ops
+  induction ops with
+  | nil => intro mp _ _ _ h; exact h
+  | cons op ops ih =>
+    intro mp hi ho hn hj
+    rw [List.foldl_cons]
+    have hop := ho op List.mem_cons_self
+    apply ih _ (inv_applyOp hw hi op hop) (fun o h => ho o (List.mem_cons_of_mem _ h))
+      (fun t f d h => hn t f d (List.mem_cons_of_mem _ h))
+    cases op with
+    | removeStale isOK f =>
+      obtain ⟨a1, a2, a3⟩ := removeStale_policy mp isOK f
+      show (removeStale mp isOK f).feePerByte = v0 ∨ _
+      by_cases hr : mp.feePerByte < f.feePerByte
+      · exact Or.inr (fun x hx _ => a3 hr x hx)
+      · have hsame : (removeStale mp isOK f).feePerByte = mp.feePerByte := by rw [a1]; omega
+        rcases hj with h | h
+        · exact Or.inl (by rw [hsame]; exact h)
+        · refine Or.inr (fun x hx hid => ?_)
+          show (removeStale mp isOK f).feePerByte ≤ _
+          rw [hsame]; exact h x (a2 x hx).1 hid
+    | add t f d =>
+      obtain ⟨p1, p2⟩ := policy_applyOp hw hi (.add t f d) hop (fun _ _ h => Op.noConfusion h)
+      rcases hj with h | h
+      · exact Or.inl (by rw [p1]; exact h)
+      · refine Or.inr (fun x hx hid => ?_)
+        rw [p1]
+        rcases p2 x hx with h' | ⟨f', d', h'⟩
+        · exact h x h' hid
+        · injection h' with e1 _ _
+          exact absurd (by rw [e1]; exact hid) (hn t f d List.mem_cons_self)
+    | remove hh =>
+      obtain ⟨p1, p2⟩ := policy_applyOp hw hi (.remove hh) hop (fun _ _ h => Op.noConfusion h)
+      rcases hj with h | h
+      · exact Or.inl (by rw [p1]; exact h)
+      · refine Or.inr (fun x hx hid => ?_)
+        rw [p1]
+        rcases p2 x hx with h' | ⟨f', d', h'⟩
+        · exact h x h' hid
+        · cases h'
+    | verify t f =>
+      obtain ⟨p1, p2⟩ := policy_applyOp hw hi (.verify t f) hop (fun _ _ h => Op.noConfusion h)
+      rcases hj with h | h
+      · exact Or.inl (by rw [p1]; exact h)
+      · refine Or.inr (fun x hx hid => ?_)
+        rw [p1]
+        rcases p2 x hx with h' | ⟨f', d', h'⟩
+        · exact h x h' hid
+        · cases h'
+    | setResendThreshold hh => exact hj
+    | setSubs on => exact hj
+
+/-- No hypothesis on the policy values the `Feer`s report, none on what `Add` is offered: if the pool's policy
+value has been raised since `t` was pooled (and `t` was not added again), then `t`, if still pooled, pays the
+value now in force. (Together with `policy_value_reachable`: a transaction can stay below the value in force
+only if that value was already in force when it was added - the ratchet case of the witness.) -/
+theorem policy_after_raise {U : Tx → Prop} (hw : WF U) (c : Nat) (pre mid : List Op) (t : Tx) (f : Feer) (d : Nat)
+    (ho : OpsIn U (pre ++ [.add t f d] ++ mid)) (hn : NoAddOf t.id mid)
+    (hraised : (run c pre).feePerByte < (run c (pre ++ [.add t f d] ++ mid)).feePerByte)
+    (hp : t ∈ (run c (pre ++ [.add t f d] ++ mid)).txs) :
+    (run c (pre ++ [.add t f d] ++ mid)).feePerByte ≤ t.feePerByte := by
+  have ho1 : OpsIn U (pre ++ [.add t f d]) := fun o h => ho o (List.mem_append.mpr (Or.inl h))
+  have ho2 : OpsIn U mid := fun o h => ho o (List.mem_append.mpr (Or.inr h))
+  have hopre : OpsIn U pre := fun o h => ho1 o (List.mem_append.mpr (Or.inl h))
+  have hi1 : Inv U (run c (pre ++ [.add t f d])) := Mempool.inv_reachable hw c _ ho1
+  have hv : (run c (pre ++ [.add t f d])).feePerByte = (run c pre).feePerByte := by
+    have hipre : Inv U (run c pre) := Mempool.inv_reachable hw c _ hopre
+    have := (policy_applyOp hw hipre (.add t f d) (ho1 _ (by simp)) (fun _ _ h => Op.noConfusion h)).1
+    unfold run at this ⊢
+    rw [List.foldl_append]; exact this
+  have hrun : run c (pre ++ [.add t f d] ++ mid) = mid.foldl applyOp (run c (pre ++ [.add t f d])) := by
+    unfold run; rw [List.foldl_append]
+  have := policy_raise_foldl hw t.id (run c pre).feePerByte mid _ hi1 ho2 hn (Or.inl hv)
+  rw [← hrun] at this
+  rcases this with h | h
+  · rw [h] at hraised; exact absurd hraised (Nat.lt_irrefl _)
+  · exact h t hp rfl
+
+/-! ## 15. Which well-formedness hypotheses the caller of `Add` establishes -/
+
+/-- The ConflictsT case of `verifyTxAttributes` (modelled loop `dupScan`, pinned by the regenerated step table
+`conflictsAttrSteps`; called before `pool.Add`: `GoFuncsTie.pool_add_after_attributes`) lets a transaction through
+iff it does not repeat a Conflicts hash. -/
+theorem attribute_check_iff_nodup (cs : List Nat) : conflictsAttrsOk cs = true ↔ cs.Nodup := conflictsAttrsOk_iff cs
+
+/-- C08 invariant with that check in the model (`runC`: an `Add` reaches the pool only through it): of the offered
+transactions only hash-likeness of the ids is assumed (`HashLike`: the id determines the transaction, two
+transactions cannot name each other) - the hypothesis `WF.confNodup` of `inv_reachable` is gone. `runC_eq_run`
+transfers every other theorem about `run` the same way. -/
+theorem inv_reachable_hashlike {U : Tx → Prop} (h : HashLike U) (c : Nat) (ops : List Op)
+    (ho : ∀ op ∈ ops, OpOfferedOk U op) :
+    Inv (Admitted U) (runC c ops) ∧ runC c ops = run c (ops.filter reaches) :=
+  ⟨inv_reachable_admitted h c ops ho, runC_eq_run c ops⟩
 
 /-! ## Non-vacuity -/
 
@@ -444,6 +547,15 @@ example : ((AConf.init 3 [[.add a0 F 1], [.remove 0]]).exec [0, 0, 1]).map
 -- an event in flight: after the critical section only
 example : ((AConf.init 3 [[.add a0 F 1], [.remove 0]]).exec [0]).map (fun cf => (cf.delivered, cf.flight)) =
     some ([], [(0, ⟨true, 0, 1⟩)]) := by decide
+
+
+-- inv_reachable_hashlike: a transaction repeating a Conflicts hash is stopped before the pool, the rest goes through
+def bad : Tx := { a1 with id := 61, conflicts := [1, 1] }
+example : conflictsAttrsOk bad.conflicts = false ∧ conflictsAttrsOk a1.conflicts = true := by decide
+example : (runC 3 [.add a0 F, .add bad F, .add b0 F]).txs.map (·.id) = [0, 1] := by decide
+-- policy_after_raise: p1 (pays 1) pooled at policy 1, the refresh raises to 3: p1 is gone / p4 (pays 4) stays
+example : (run 4 ([.removeStale (fun _ => true) F1] ++ [.add p4 F1] ++ [.removeStale (fun _ => true) F3])).feePerByte = 3 ∧
+    p4 ∈ (run 4 ([.removeStale (fun _ => true) F1] ++ [.add p4 F1] ++ [.removeStale (fun _ => true) F3])).txs := by decide
 
 
 end Examples
